@@ -204,6 +204,9 @@ Definition read_covered (r : envread) : bool :=
   | EnvKeyed d => dmem d key_fields
   | EnvNeeds d => dmem d key_fields
   end.
+(* full statement of the environment obligation (does NOT hold on the pinned tree: SA9007); the proved
+   one is Props/C04.v env_reads_covered_partial *)
+Definition env_reads_full_statement : Prop := forallb read_covered gen_env_reads = true.
 Definition uncovered_reads : list envread := filter (fun r => negb (read_covered r)) gen_env_reads.
 Definition missing_dims : list dim := filter (fun d => negb (dmem d key_fields)) relevant.
 
